@@ -18,7 +18,7 @@ git -C /repo worktree add --detach "$WT" HEAD >/dev/null 2>&1 || { echo "worktre
 DEMO="$(mktemp -d /var/tmp/sdfx-demo.XXXXXX)"
 cp -r "$OUT/demo/." "$DEMO/"
 rundemo() { # $1 = tree
-  ( cd "$DEMO" && cp "$1/go.sum" . 2>/dev/null; go mod edit -replace github.com/deadsy/sdfx="$1" && if ls *_test.go >/dev/null 2>&1; then timeout 900 go test -count=1 ./... ; else timeout 900 go run . ; fi ) >"$DEMO/out.log" 2>&1
+  ( cd "$DEMO" && cp "$1/go.sum" . 2>/dev/null; go mod edit -replace github.com/deadsy/sdfx="$1" && if ls *_test.go >/dev/null 2>&1; then timeout 900 go test ${DEMO_TAGS:+-tags $DEMO_TAGS} -count=1 ./... ; else timeout 900 go run ${DEMO_TAGS:+-tags $DEMO_TAGS} . ; fi ) >"$DEMO/out.log" 2>&1
 }
 rundemo "$WT"; RC_MOD=$?
 tail -3 "$DEMO/out.log" > /tmp/confirm-mod.log
